@@ -19,6 +19,9 @@ pub trait Lock {
         T: 'a;
     type SubscriberState<S>;
 
+    /// How many strong references to the shared state one subscriber holds.
+    const SUBSCRIBER_REFS: usize;
+
     fn new_rwlock<T>(value: T) -> Self::RwLock<T>;
     fn read_noblock<T>(lock: &Self::RwLock<T>) -> Self::RwLockReadGuard<'_, T>;
 
@@ -47,6 +50,8 @@ impl Lock for SyncLock {
     where
         T: 'a;
     type SubscriberState<S> = readlock::SharedReadLock<ObservableState<S>>;
+
+    const SUBSCRIBER_REFS: usize = 1;
 
     fn new_rwlock<T>(value: T) -> Self::RwLock<T> {
         Self::RwLock::new(value)
@@ -88,6 +93,10 @@ impl Lock for AsyncLock {
     where
         T: 'a;
     type SubscriberState<S> = crate::subscriber::async_lock::AsyncSubscriberState<S>;
+
+    // One for the read lock and one for the (boxed, reusable) future that
+    // acquires it, see `AsyncSubscriberState`.
+    const SUBSCRIBER_REFS: usize = 2;
 
     fn new_rwlock<T>(value: T) -> Self::RwLock<T> {
         Self::RwLock::new(value)
